@@ -73,6 +73,12 @@ def mutate_templates():
     # if chain: exactly the first true branch
     src = ['if @b0@ {', '    print(1)', '} else if @b1@ {', '    print(2)', '} else if @b2@ {', '    print(3)', '} else {', '    print(4)', '}', 'if @b0@ {', '    print(5)', '} else if @b1@ {', '    print(6)', '}', 'print(0)']
     ts.append({'name': 'if-chain', 'src': '\n'.join(src) + '\n'})
+    # the pair bound by `for` belongs to its iteration (a whole-pair target kept beyond the iteration)
+    ts.append({'name': 'for-pair-kept', 'src': 'best := []\nfor kv in [@h10@, @h11@, 1] {\n    if best == [] {\n        best = kv\n    }\n}\nprint(best)\nkept := []\nfor e in {"a": 1, "b": 2, "c": 3} {\n    if e[0] == "b" {\n        continue\n    }\n    kept += [e]\n}\nprint(kept)\nn := 0\nprev := [0, ""]\nfor ch in "aabbb" {\n    if prev[1] == ch[1] {\n        n += 1\n    }\n    prev = ch\n}\nprint(n)\n'})
+    # conditions are evaluated in order and only up to the first true one
+    src = ['fn t(n, v) {', '    print(n)', '    return v', '}', 'xs := []', 'if t(1, @b0@) {', '    print(10)', '} else if t(2, @b1@) {', '    print(20)', '} else if t(3, @b2@) {', '    print(30)', '} else {', '    print(40)', '}',
+           'if xs == [] {', '    print("empty")', '} else if xs[0] == 1 {', '    print("one")', '}', 'i := 0', 'while t(4, i < 2) {', '    i += 1', '}']
+    ts.append({'name': 'if-chain-effects', 'src': '\n'.join(src) + '\n'})
     # call that runs off its end yields null; return value through nested blocks
     src = ['fn f(c) {', '    if c {', '        {', '            return 1', '        }', '    }', '}', 'print(f(@b0@))']
     ts.append({'name': 'return-or-null', 'src': '\n'.join(src) + '\n'})
